@@ -195,6 +195,9 @@ def run_packing(cfg, out):
                 w.step()
             w.net.heal()
             healed = run.settle([c], min_ticks=30, horizon=40.0)
+            # the MTU is changed while the connection is open (documented: lower it when the network drops packets)
+            if healed is not None and c05.change_mtu(run, c, r):
+                healed = run.settle([c], min_ticks=30, horizon=40.0)
             T.final_checks(run, [c], healed, horizon=40.0)
             if not w.alive():
                 run.report("C09", "server-loop-died", "the server thread died: %s" % (w.thread_errors[:2],))
@@ -224,7 +227,7 @@ def finish(tier, seed, results):
     m = merge(results)
     inconclusive = []
     need(m["counters"], ["codec_packets", "codec_form_gcm", "codec_form_crc", "codec_roundtrips_real", "codec_roundtrips_independent",
-                         "mtus_run", "wire_checked", "maximality_checked", "roundtrips_checked", "tiny_floods", "resend_plus_fresh_floods", "conservation_checked",
+                         "mtus_run", "wire_checked", "maximality_checked", "roundtrips_checked", "tiny_floods", "resend_plus_fresh_floods", "mtu_changes_on_open_connections", "conservation_checked",
                          "packets_built"], inconclusive)
     cov = {
         "evaluations": m["evaluations"],
